@@ -13,6 +13,15 @@ def offsetOk (windowSize dictSize pos blockEnd offset : Nat) : Bool :=
   decide (offset ≥ 1) && decide (offset ≤ pos + dictSize) &&
   (decide (offset ≤ windowSize) || decide (blockEnd ≤ windowSize))
 
+/-- the window rule along the sequences of one block (block number `bi`, for the messages): `p` is the position in the frame content
+at which the next sequence's literals start; each match is judged at the position where it starts (`p + ll`).  Returns the violations. -/
+def seqViolations (bi windowSize dictSize blockEnd : Nat) : Nat → List Exec.Seq → List String
+  | _, [] => []
+  | p, sq :: rest =>
+    (if !offsetOk windowSize dictSize (p + sq.ll) blockEnd sq.offset then
+       [s!"block {bi}: offset {sq.offset} at position {p + sq.ll} violates window {windowSize} (dict {dictSize}, block end {blockEnd})"]
+     else []) ++ seqViolations bi windowSize dictSize blockEnd (p + sq.ll + sq.ml) rest
+
 /-- violations of one frame (empty list = conformant) -/
 def checkFrame (t : FrameTrace) (dictSize : Nat) (expectDictID : Option Nat) (maxBlockSize : Nat := 0) (subBlocks : Bool := false) : List String := Id.run do
   let mut v : List String := []
@@ -45,13 +54,7 @@ def checkFrame (t : FrameTrace) (dictSize : Nat) (expectDictID : Option Nat) (ma
         -- (compression-modes byte + table descriptions + bit stream) is shorter than 4 bytes; such a sub-block is emitted raw instead
         if subBlocks && tr.nbSeq > 0 && 1 + u1 + u2 + u3 + tr.bitstreamSize < 4 then
           v := v ++ [s!"block {bi}: sub-block sequences section body of {1 + u1 + u2 + u3 + tr.bitstreamSize} bytes (< 4)"]
-        let blockEnd := pos + b.regen
-        let mut p := pos
-        for sq in tr.seqs do
-          p := p + sq.ll
-          if !offsetOk h.windowSize dictSize p blockEnd sq.offset then
-            v := v ++ [s!"block {bi}: offset {sq.offset} at position {p} violates window {h.windowSize} (dict {dictSize}, block end {blockEnd})"]
-          p := p + sq.ml
+        v := v ++ seqViolations bi h.windowSize dictSize (pos + b.regen) pos tr.seqs.toList
       | none => pure ()
     pos := pos + b.regen
     bi := bi + 1
